@@ -13,7 +13,7 @@ EXPLANATION = (
     "- a target for which is_valid is false yields Kind::InvalidModule and is never loaded; (R5) JOIN-AGREE - module::load "
     "and resolve::declare_import derive the imported locator with the same Locator::join(loc, import.module()). "
     "Exactly-once over all graphs as observed behaviour and the url crate's path normalisation are not decided.")
-EXPLANATION += " Further clauses: (R6) COMPLETE - Program::imports selects children by cast only, CycleDetected is constructed only by the failed toposort, the already-loaded arm cannot fail; (R7) LOCATORS - Locator::join delegates to url::Url::join and every Loader::is_valid returns the file system's (or the fixed input's) verdict. The rules follow is_valid/join into closures of module::load. R7 also requires locator_path to convert with url::Url::to_file_path. R7 also requires FileSystem::is_valid to follow symbolic links like read_file. (R8) SPELLING - two spellings of one file are one module."
+EXPLANATION += " Further clauses: (R6) COMPLETE - Program::imports selects children by cast only, CycleDetected is constructed only by the failed toposort, the already-loaded arm cannot fail; (R7) LOCATORS - Locator::join delegates to url::Url::join and every Loader::is_valid returns the file system's (or the fixed input's) verdict. The rules follow is_valid/join into closures of module::load. R7 also requires locator_path to convert with url::Url::to_file_path. R7 also requires FileSystem::is_valid to follow symbolic links like read_file. (R8) SPELLING - two spellings of one file are one module. (R9) USE-ORDER - a name brought in by two imports is not silently resolved in favour of the later one."
 TECHNIQUE = "static analysis: MIR dominance, must-pass-through and argument-provenance rules on module::load"
 
 L = 'oal_compiler::module::load'
@@ -514,7 +514,20 @@ def r8_spelling(c, facts):
         c.bad(R, 'locator-spelling-not-normalised', 'Locator::join keeps the fragment / query of the reference it resolves (and locators are compared as URL strings): `use "m.oal"` and `use "m.oal#x"` (or `?v=1`, or `sub//m.oal`) name the same file but are two modules, each loaded, parsed and compiled')
 
 
+def r9_use_order(c, facts):
+    """the result does not depend on the order of `use` statements: two imports that bring in different definitions
+    under one name must not be resolved by "the later wins" """
+    import c08
+    R = c.rule('C10.R9', 'USE-ORDER: a name brought in by two imports is not silently resolved in favour of the later one')
+    di = c.anchor(R, 'oal_compiler::resolve::declare_import')
+    if c08.branches_on_result(di, 'env::Env::declare') and c08.has_kind(di, 'InvalidIdentifier'):
+        c.ok(R, {'declare_import': 'the previous definition returned by Env::declare decides an error'})
+    else:
+        c.bad(R, 'declare_import:previous-definition-ignored', 'declare_import ignores the previous definition returned by Env::declare: with two unqualified imports that declare the same name the later one wins, so swapping two `use` statements changes the document')
+
+
 def run(c, facts):
+    c.run(r9_use_order, facts)
     c.run(r8_spelling, facts)
     c.run(r7_locators, facts)
     c.run(r6_complete, facts)
